@@ -7,6 +7,7 @@ import (
 	"compress/gzip"
 	"fmt"
 	"os"
+	"sort"
 	"strings"
 	"time"
 
@@ -79,7 +80,14 @@ func genC04(r *simrt.Rand, tier string) any {
 		// kept in the search but thinned to one in eight of its natural
 		// frequency so that it does not eat the budget of everything else.
 		for try := 0; ; try++ {
-			switch r.Intn(12) {
+			switch r.Intn(13) {
+			case 12:
+				// structure-aware: one column array of a columnar payload is
+				// shorter or longer than the others (valid MessagePack, invalid batch)
+				rq.Mut = Mut{Kind: "none"}
+				if rq.B.Kind == "mp" {
+					rq.Mut = Mut{Kind: "ragged", A: r.Intn(1000), B: r.Intn(1000)}
+				}
 			case 0:
 				rq.Mut = Mut{Kind: "trunc", A: r.Intn(1000)}
 			case 1:
@@ -113,6 +121,10 @@ func genC04(r *simrt.Rand, tier string) any {
 				break
 			}
 		}
+		if rq.B.Kind == "mp" && rq.Weird != "" && rq.Mut.Kind == "none" && r.Chance(20) {
+			// unusual name and unusual shape together
+			rq.Mut = Mut{Kind: "ragged", A: 2 * r.Intn(500), B: r.Intn(1000)}
+		}
 		if r.Chance(30) {
 			rq.SleepUs = int64(r.Intn(p.Knobs.MaxBufferAgeMS*1500 + 1))
 		}
@@ -132,6 +144,29 @@ func (rq *C04Req) body() ([]byte, bool) {
 	switch m.Kind {
 	case "none", "":
 		return body, true
+	case "ragged":
+		if rq.B.Kind != "mp" || len(rq.B.IDs) == 0 {
+			return body, true
+		}
+		cols := map[string]interface{}{}
+		var names []string
+		for k, v := range rq.B.columns() {
+			cols[k] = v
+			names = append(names, k)
+		}
+		sort.Strings(names)
+		target := names[m.A%len(names)]
+		if _, ok := cols[rq.Weird]; ok && m.A%2 == 0 {
+			target = rq.Weird // preferably the unusual column
+		}
+		col := cols[target].([]interface{})
+		if m.B%3 == 0 {
+			col = append(append([]interface{}(nil), col...), col[:1+(m.B/3)%len(col)]...)
+		} else {
+			col = col[:len(col)-1-(m.B/3)%len(col)]
+		}
+		cols[target] = col
+		return mpMarshal(map[string]interface{}{"m": rq.B.Meas, "columns": cols}), false
 	case "trunc":
 		if len(body) == 0 {
 			return body, false
